@@ -102,23 +102,7 @@ marker::PhantomData
 ===
 core::marker::PhantomData
 >>>
-//@spec
-    requires
-        // every candidate is a stored item (the callers pass ids read from the same transaction)
-        forall|id: u32| old(candidates)@.contains(id) ==> rtxn.view().contains_key(ikey(index, id)),
-        leaves_same_len(rtxn.view(), index),
-    ensures
-        r matches Ok((leafs, selected)) ==> ({
-            // C14 / C01: the candidates are split into the selected ids and the ids left for the next pass: nothing is lost, nothing is duplicated
-            &&& selected@.union(final(candidates)@) == old(candidates)@
-            &&& selected@.disjoint(final(candidates)@)
-            &&& leafs.leafs.keys() == selected@
-            // progress: a non-empty set of candidates always yields a non-empty selection (the >= 200 guard)
-            &&& (old(candidates)@.len() > 0 ==> selected@.len() > 0)
-            // the selection is a lower segment of the candidates (ids are taken in ascending order)
-            &&& (forall|a: u32, b: u32| selected@.contains(a) && final(candidates)@.contains(b) ==> a < b)
-        }),
-        r matches Err(e) ==> e is Heed,
+//@specfile lib/contracts/immutable_leafs_new.spec
 //@loop 0
         invariant
             forall|id: u32| candidates@.contains(id) ==> rtxn.view().contains_key(ikey(index, id)),
